@@ -7,8 +7,9 @@ from . import vocab
 ORD_KEYS = ["nop", "push_rax", "pop_rax", "push_rbx", "pop_rbx", "mov_rr",
             "xor", "add"]
 SYM_KEYS = ["lea_sym", "mov_sym", "cmp_sym", "movi_sym"]
-TERMS = ["none", "jmp", "jcc", "call", "ret", "ijmp", "icall", "halt"]
-TERM_W = [30, 12, 12, 14, 14, 5, 5, 8]
+TERMS = ["none", "jmp", "jcc", "call", "ret", "ijmp", "icall", "halt",
+         "syscall"]
+TERM_W = [30, 12, 12, 14, 14, 5, 5, 8, 4]
 MARK_BASE = 0x5A0000
 
 
@@ -21,8 +22,10 @@ def term_key(isa, term, rng, orig=True):
             else "jne"
     if term == "halt":
         return rng.choice(["ud2", "hlt"]) if isa != "arm64" else "ud2"
+    if term == "syscall" and isa == "ia32":
+        return "icall"      # (no system-call instruction in the IA32 table)
     return {"call": "call", "ret": "ret", "ijmp": "ijmp",
-            "icall": "icall"}[term]
+            "icall": "icall", "syscall": "syscall"}[term]
 
 
 class Gen:
